@@ -1,5 +1,5 @@
 #!/usr/bin/env python3
-"""selftest/run_all.py [--only substr] [--redo]: run bin/mutest (all 19 quick checks) for every seeded change under
+"""selftest/run_all.py [--only substr] [--redo] [--targeted]: run bin/mutest (all 19 quick checks) for every seeded change under
 seeded/*/patch.diff and every patch of the own catalogue selftest/own/*.diff, one after the other (they all patch
 /repo and restore it), collect selftest/results.json and print the table that goes into DESIGN.md."""
 import subprocess, os, sys, json, glob
@@ -11,6 +11,7 @@ RES = os.path.join(VERIF, "selftest", "results.json")
 def main():
     only = sys.argv[sys.argv.index("--only") + 1] if "--only" in sys.argv else None
     redo = "--redo" in sys.argv
+    targeted = "--targeted" in sys.argv   # property-breaking changes: run only the checks of the properties they break (fast feedback)
     results = json.load(open(RES)) if os.path.exists(RES) else {}
     items = []
     for d in sorted(glob.glob(os.path.join(VERIF, "seeded", "*"))):
@@ -27,13 +28,15 @@ def main():
             continue
         if label in results and not redo:
             continue
-        p = subprocess.run([os.path.join(VERIF, "bin", "mutest"), patch, "--label", label] + ([] if first else ["--no-refresh"]), stdout=subprocess.PIPE, stderr=subprocess.STDOUT, text=True)
+        extra = (["--checks", ",".join(breaks), "--skip-tests"] if (targeted and breaks) else [])
+        p = subprocess.run([os.path.join(VERIF, "bin", "mutest"), patch, "--label", label] + extra + ([] if first else ["--no-refresh"]), stdout=subprocess.PIPE, stderr=subprocess.STDOUT, text=True)
         first = False
         try:
             r = json.loads(p.stdout.strip().splitlines()[-1])
         except Exception:
             r = {"error": p.stdout[-500:], "fired": {}, "tests": None}
         r["expected"] = breaks
+        r["checks_run"] = "targeted" if (targeted and breaks) else "all"
         r["what"] = what
         results[label] = r
         json.dump(results, open(RES, "w"), indent=1)
